@@ -186,7 +186,12 @@ def run_case(ctx, rng, c, workdir):
     exp, est, margin = expectation(code)
     ctx.feature('expect_' + exp)
 
-    g = carts.make_game(regions, code=code, version=version)
+    # the cart may carry a label of its own (carts loaded from a .p8 with a __label__ section do): the picture of the written image
+    # still comes from the label SOURCE the statement names (the existing destination, else the bundled blank label)
+    own_label = carts.random_bytes(rng, 8192) if rng.random() < 0.4 else None
+    if own_label is not None:
+        ctx.feature('cart_has_label_of_its_own')
+    g = carts.make_game(regions, code=code, version=version, label=own_label)
     # the same destination path is reused for the whole shard: a write must take its label from what is at the path NOW
     dest = os.path.join(workdir, BASE[0] + '.p8.png')
     if os.path.exists(dest):
@@ -229,7 +234,7 @@ def run_case(ctx, rng, c, workdir):
             # .p8 -> .p8.png through the file API
             src = os.path.join(workdir, 'src%d.p8' % ctx.evaluations)
             with open(src, 'wb') as fh:
-                fh.write(rc.write_p8(regions, code, version=version))
+                fh.write(rc.write_p8(regions, code, version=version, label=own_label))
             listing_before = sorted(os.listdir(workdir))
             g1 = p8file.from_file(src)
             p8file.to_file(g1, dest)
@@ -411,4 +416,6 @@ def gates(m, tier):
         missed.append('no oversize cart was refused')
     if mon.get('png_files_validated', 0) < 30 or mon.get('own_reads_compared', 0) < 30:
         missed.append('monitors saw too few files')
+    if f.get('cart_has_label_of_its_own', 0) < 20:
+        missed.append('carts with a label of their own: %d' % f.get('cart_has_label_of_its_own', 0))
     return missed
